@@ -18,7 +18,12 @@ pub struct BlockedClient {
     pub blocked_at: Instant,
     pub deadline: Option<Instant>,
     pub op_type: BlockingOp,
+    /// Position in the order in which the calls blocked (clients are served in that order)
+    pub order: u64,
 }
+
+/// Source of `BlockedClient::order`
+static BLOCK_ORDER: std::sync::atomic::AtomicU64 = std::sync::atomic::AtomicU64::new(0);
 
 /// Wake-up request for blocked clients
 #[derive(Debug)]
@@ -29,6 +34,8 @@ pub struct WakeupRequest {
     pub op_type: BlockingOp,
     /// Deadline of the blocked call, needed to put the client back if its wake-up finds nothing
     pub deadline: Option<Instant>,
+    /// The call's place among the blocked calls, needed for the same reason
+    pub order: u64,
 }
 
 /// Per-database blocking registry
@@ -168,6 +175,7 @@ impl BlockingManager {
             blocked_at: Instant::now(),
             deadline,
             op_type,
+            order: BLOCK_ORDER.fetch_add(1, std::sync::atomic::Ordering::Relaxed),
         };
         
         let keys_with_db: Vec<(DatabaseIndex, Vec<u8>)> = keys.into_iter().map(|k| (db, k)).collect();
@@ -224,6 +232,7 @@ impl BlockingManager {
             key: key.to_vec(),
             op_type: client.op_type,
             deadline: client.deadline,
+            order: client.order,
         });
     }
     
@@ -239,17 +248,20 @@ impl BlockingManager {
         keys
     }
     
-    /// Put a client back at the head of a key's queue: its wake-up found the element gone (another
-    /// client popped it first), so it keeps its place and its deadline
+    /// Put a client back into a key's queue: its wake-up found the element gone (another client
+    /// popped it first), so it keeps its place and its deadline. Its place is the one its call had
+    /// when it blocked: several clients can come back in one pass, and pushing each to the very
+    /// front would reverse their order.
     pub fn requeue_front(&self, db: DatabaseIndex, key: &[u8], client: BlockedClient) {
         if db >= self.registries.len() {
             return;
         }
         let mut registry = self.registries[db].write().unwrap();
-        registry.blocked_on_key
+        let queue = registry.blocked_on_key
             .entry(key.to_vec())
-            .or_insert_with(VecDeque::new)
-            .push_front(client);
+            .or_insert_with(VecDeque::new);
+        let at = queue.iter().position(|other| other.order > client.order).unwrap_or(queue.len());
+        queue.insert(at, client);
         registry.blocked_keys.insert(key.to_vec());
     }
     
